@@ -244,7 +244,7 @@ pub fn c17(ctx: &Ctx) -> (CheckMeta, Outcome) {
         out
     }));
     let thorough = ctx.thorough;
-    let half: i128 = if thorough { 1 << 16 } else { 1 << 12 };
+    let half: i128 = 1 << 16;
     // 32 bits: complete in thorough (split in 64 ranges), windows in quick
     if thorough {
         for part in 0..64i64 {
@@ -289,7 +289,7 @@ pub fn c17(ctx: &Ctx) -> (CheckMeta, Outcome) {
     let meta = CheckMeta {
         property: "C17".into(),
         level: "exploration".into(),
-        rule: "complete enumeration of i8/u8 and i16/u16 (and of all 2^32 values of i32/u32 in the thorough tier); for 32 (quick), 64, 128 bits and pointer size every bit pattern within 2^12 (thorough 2^16) of 0, MIN, MAX, all-ones and of every power of two; oracle: the closed formulas (x >= 0 -> 2x, x < 0 -> 2*(!x)+1 = -2x-1; n even -> n/2, n odd -> !(n/2)) and mutual inversion in both directions; non-trivial = negative or > 100".into(),
+        rule: "complete enumeration of i8/u8 and i16/u16 (and of all 2^32 values of i32/u32 in the thorough tier); for 32 (quick), 64, 128 bits and pointer size every bit pattern within 2^16 of 0, MIN, MAX, all-ones and of every power of two; oracle: the closed formulas (x >= 0 -> 2x, x < 0 -> 2*(!x)+1 = -2x-1; n even -> n/2, n odd -> !(n/2)) and mutual inversion in both directions; non-trivial = negative or > 100".into(),
         assumptions: vec![],
     };
     (meta, out)
@@ -363,9 +363,9 @@ pub fn c18(ctx: &Ctx) -> (CheckMeta, Outcome) {
                             out.violations.push(v("C18", "vbyte-io", name.into(), "io", "value", d, json!({"kind": "none"})));
                         }
                     }
-                    if want.len() > 1 {
-                        out.cov.nontrivial += 1;
-                    }
+                }
+                if x >= 128 {
+                    out.cov.nontrivial += 1;
                 }
             }
             out
@@ -426,7 +426,9 @@ pub fn c18(ctx: &Ctx) -> (CheckMeta, Outcome) {
             out.cov.configs.insert("completeness".into());
             let mut check = |s: &[u8], out: &mut Outcome| {
                 out.cov.evaluations += 1;
-                out.cov.nontrivial += 1;
+                if s.len() > 1 {
+                    out.cov.nontrivial += 1;
+                }
                 for big in [true, false] {
                     let mut cur = std::io::Cursor::new(s);
                     let r = if big { vbyte_read_be(&mut cur) } else { vbyte_read_le(&mut cur) };
@@ -652,7 +654,7 @@ pub fn step_grid() -> Vec<u64> {
 pub fn c20(ctx: &Ctx) -> (CheckMeta, Outcome) {
     let mut tasks: Vec<Task> = vec![];
     let seed = ctx.seed;
-    let dense: u64 = if ctx.thorough { 1 << 20 } else { 1 << 16 };
+    let dense: u64 = if ctx.thorough { 1 << 21 } else { 1 << 20 };
     // (1) monotone + Kraft
     for code in len_codes(seed) {
         tasks.push(Box::new(move || {
@@ -818,7 +820,7 @@ pub fn c20(ctx: &Ctx) -> (CheckMeta, Outcome) {
     let meta = CheckMeta {
         property: "C20".into(),
         level: "exploration".into(),
-        rule: "(1) every library length function (unary, gamma, delta, omega, vbyte, zeta/pi/rice/exp-golomb with parameters 0..=16, 31, 63, golomb 1..=64 and six larger moduli): len(v) <= len(v+1) for all v below 2^16 (thorough 2^20) and within 2^10 of every power of two; Kraft sum of the dense prefix in exact arithmetic (numerator over 2^(2^21)) must not exceed 1; (2) FindChangePoints on each of those functions, driven through a closure with a 200 000-call budget: first item (0, f(0)), strictly increasing, every item a true change point with the new value, none of the true change points of the dense prefix missed, iteration ends; (3) get_implied_distribution terminates for each code and its probabilities are 2^-len x run length; (4) ALL synthetic non-decreasing step functions with at most 3 steps at positions from a 39-point grid (1..9, around 2^7, 2^16, 2^20, 2^31..2^33, 2^47, 2^62, 2^63 +-1, beyond 2^63, 2^64-2), including the constant function: same oracle, every step <= 2^63 must be reported; non-trivial = value at which a length steps / function with at least one step".into(),
+        rule: "(1) every library length function (unary, gamma, delta, omega, vbyte, zeta/pi/rice/exp-golomb with parameters 0..=16, 31, 63, golomb 1..=64 and six larger moduli): len(v) <= len(v+1) for all v below 2^20 (thorough 2^21) and within 2^10 of every power of two; Kraft sum of the dense prefix in exact arithmetic (numerator over 2^(2^21)) must not exceed 1; (2) FindChangePoints on each of those functions, driven through a closure with a 200 000-call budget: first item (0, f(0)), strictly increasing, every item a true change point with the new value, none of the true change points of the dense prefix missed, iteration ends; (3) get_implied_distribution terminates for each code and its probabilities are 2^-len x run length; (4) ALL synthetic non-decreasing step functions with at most 3 steps at positions from a 39-point grid (1..9, around 2^7, 2^16, 2^20, 2^31..2^33, 2^47, 2^62, 2^63 +-1, beyond 2^63, 2^64-2), including the constant function: same oracle, every step <= 2^63 must be reported; non-trivial = value at which a length steps / function with at least one step".into(),
         assumptions: vec!["Kraft terms below 2^-(2^21) are ignored (only possible for unary-like codes beyond the dense prefix)".into()],
     };
     (meta, out)
